@@ -61,7 +61,7 @@ func (c *cmpCollector) OnInstr(x *Explorer, fr *Frame, in ssa.Instruction, st ui
 
 func fixedPriceGuards(w *World, r *Report, tm *Terms) {
 	r.Rule("FP-REMAINDER", "fixed price bid committed only if the remainder covers it", 1)
-	r.Rule("FP-CAP", "fixed price bid committed only within the cumulative allowance", 3)
+	r.Rule("FP-CAP", "fixed price bid committed only within the cumulative allowance", 2)
 	r.Rule("BATCH-CAP", "batch bid committed only within the allowance", 2)
 	ms := w.msgServerMethods()
 	place := ms["PlaceBid"]
@@ -457,8 +457,8 @@ func reachesAny(w *World, fn *ssa.Function, set map[*ssa.Function]bool) bool {
 func checkC05(w *World, r *Report) {
 	r.Explanation = "Decides: batch — (CAP-MIN) every quantity added to a matched amount is MinInt(request, remaining allowance of the bid's bidder) with the allowance map seeded from the allow-list's MaxBidAmount and decremented by exactly the matched quantity, (SUPPLY-GUARD) the accumulation is unreachable when total + quantity > supply for the very quantity accumulated; fixed price — by evaluating the bid-placing operation over the orderings of the compared quantities: (FP-REMAINDER) the Bid record is written only if RemainingSellingCoin ≥ the bid's selling amount, (FP-CAP) only if total ≤ MaxBidAmount, where the total provably depends on both the bid being placed and the bidder's stored bids (cumulative cap), the cap is the allow-list entry keyed by (this auction, this bidder) read at bid time, and the stored bids counted are filtered to this auction; (BATCH-CAP) a batch bid is recorded only if its own selling amount ≤ MaxBidAmount."
 	r.NotDecided = "the resulting inequalities as numbers over all histories; caps changed between bids are covered by the cap being read from the store at each acceptance."
-	r.Rule("CAP-MIN", "accumulated quantity = min(request, remaining allowance)", 2)
-	r.Rule("SUPPLY-GUARD", "accumulation unreachable when total + quantity > supply", 2)
+	r.Rule("CAP-MIN", "accumulated quantity = min(request, remaining allowance)", 1)
+	r.Rule("SUPPLY-GUARD", "accumulation unreachable when total + quantity > supply", 1)
 	tm := NewTerms(w)
 	tree := settlementTree(w)
 	checkCapMin(w, r, tm, tree)
